@@ -134,6 +134,12 @@ example :
     (htCopyA [seg] 2 s).1 = none ∧ (htCopyA [seg] 2 s).2.live = [0] ∧ (htCopyA [seg] 2 s).2.count = 3 := by
   decide
 
+/-- the unchanged `hashtab_copy` (no NULL check after `hashtab_create`, defect F11) violates
+    the property: with the first request failing and one item to copy it dereferences NULL -/
+theorem hashtab_copy_unfixed_counterexample :
+    (htCopyUnfixedA [{ id := 0, size := 4, used := 1, tab := [(0, 0), (1, 7), (0, 0), (0, 0)] }] 8
+        { nextId := 1, live := [0], count := 1, fails := [2] }).1 = .crash := by decide
+
 /-- **heap_push / heap_reserve**: `false` ⇒ array pointer, capacity, contents unchanged -/
 theorem heap_fault_atomic (h h' : HP) (x n : Nat) (s s' : AS) :
     (hpPushA h x s = ((false, h'), s') → h' = h ∧ s'.live = s.live) ∧
